@@ -102,7 +102,10 @@ def step (c : Cfg) : Option Nat → Cfg
   | some k =>
     if c.wpc k = 1 then
       if c.ctxValid k then { c with wpc := upd c.wpc k 2 } else { c with bad := some (Bad.ctxUseAfterScope k) }
-    else if c.wpc k = 2 then { c with wpc := upd c.wpc k 3, ready := upd c.ready k true }
+    else if c.wpc k = 2 then
+      -- `((Context*)p)->ready = true`: a write into the creator's stack context (function threads only)
+      if c.ctxFree || c.ctxValid k then { c with wpc := upd c.wpc k 3, ready := upd c.ready k true }
+      else { c with bad := some (Bad.ctxUseAfterScope k) }
     else if c.wpc k = 3 then { c with wpc := upd c.wpc k 4, ran := upd c.ran k (c.ran k + 1) }
     else if c.wpc k = 4 then
       if c.objAlive k then { c with wpc := upd c.wpc k 5, finished := upd c.finished k true }
@@ -256,3 +259,45 @@ def run (c : CondN) : List (Option Nat) → CondN
   | a :: r => run (if enabled c a then step c a else c) r
 
 end AslModel.Thread.SyncN
+
+/-! ## counting semaphore shared by any number of waiting and posting threads -/
+namespace AslModel.Thread.SemN
+
+structure Cfg where
+  nW : Nat
+  nP : Nat
+  count : Nat
+  wantW : Nat → Nat      -- `wait()` calls waiter i still has to complete
+  wantP : Nat → Nat      -- `post()` calls poster j still has to make
+  doneW : Nat
+  doneP : Nat
+
+inductive Act where
+  | wait (i : Nat)
+  | post (j : Nat)
+deriving Repr, DecidableEq
+
+def upd (f : Nat → Nat) (k v : Nat) : Nat → Nat := fun j => if j = k then v else f j
+
+/-- `wait()` completes only when the count is positive; `post()` never blocks -/
+def enabled (c : Cfg) : Act → Bool
+  | Act.wait i => decide (i < c.nW) && decide (0 < c.wantW i) && decide (0 < c.count)
+  | Act.post j => decide (j < c.nP) && decide (0 < c.wantP j)
+
+def step (c : Cfg) : Act → Cfg
+  | Act.wait i => { c with count := c.count - 1, wantW := upd c.wantW i (c.wantW i - 1), doneW := c.doneW + 1 }
+  | Act.post j => { c with count := c.count + 1, wantP := upd c.wantP j (c.wantP j - 1), doneP := c.doneP + 1 }
+
+def run (c : Cfg) : List Act → Cfg
+  | [] => c
+  | a :: r => run (if enabled c a then step c a else c) r
+
+def init (nW nP count : Nat) (wantW wantP : Nat → Nat) : Cfg :=
+  { nW := nW, nP := nP, count := count, wantW := wantW, wantP := wantP, doneW := 0, doneP := 0 }
+
+def total (n : Nat) (f : Nat → Nat) : Nat := ((List.range n).map f).sum
+
+/-- nothing can happen any more -/
+def quiescent (c : Cfg) : Prop := ∀ a, enabled c a = false
+
+end AslModel.Thread.SemN
